@@ -54,7 +54,8 @@ pub fn child(a: &Args) {
     let bch = cfg["bch"].as_u64().unwrap();
     let epochs = cfg["epochs"].as_u64().unwrap() as usize;
     let fault = cfg["fault"].as_str().unwrap().to_string();
-    let sh = shared(k, 100000, cfg["delay_us"].as_u64().unwrap(), false);
+    let sh = shared(k, 100_000_000, cfg["delay_us"].as_u64().unwrap(), false);
+    sh.build_delay_ms.store(cfg["build_delay_ms"].as_u64().unwrap_or(0), std::sync::atomic::Ordering::SeqCst);
     let script = script_for(cfg["seed"].as_u64().unwrap(), fault, w);
     let (tx, rx) = std::sync::mpsc::channel::<Report>();
     let ebn0s: Vec<f32> = (0..epochs).map(|e| 35.0 + e as f32).collect();
@@ -141,6 +142,14 @@ pub fn generate(a: &Args) {
             let bch = if rep % 3 == 1 { 2 } else { 0 };
             cfgs.push(json!({"W": w, "ncw": 24, "r": 12, "salt": rng.next() % 1000, "pat": Value::Null, "il": Value::Null, "psk8": rep % 2 == 1,
                 "target": 2 + rng.below(6), "bch": bch, "epochs": 1 + rep % 2, "fault": "none", "delay_us": (rep % 3) * 100, "seed": rng.next() % 100000}));
+        }
+    }
+    // slow decoder construction (as for large codes): the first workers run far ahead of the collector before it starts
+    // receiving; small targets end the point while a large backlog is still queued
+    for &w in &[2usize, 3, 8] {
+        for rep in 0..(if th { 6 } else { 2 }) {
+            cfgs.push(json!({"W": w, "ncw": 24, "r": 12, "salt": 7, "pat": Value::Null, "il": Value::Null, "psk8": false, "target": 1 + rep % 2, "bch": 0, "epochs": 1 + rep % 2,
+                "fault": "none", "delay_us": 0, "seed": 4000 + rep, "build_delay_ms": 25}));
         }
     }
     // fault injection
